@@ -1,7 +1,154 @@
 package vapp
 
-import "encoding/json"
+import (
+	"encoding/json"
+	"strings"
+)
 
 func writeSubsysExt(spec string, enc *json.Encoder, t int, sc *Scenario, tr *Transcript) int {
-	panic("unknown spec " + spec)
+	n := 0
+	switch spec {
+	case "Ons":
+		for _, e := range OnsEvents(t, sc, tr) {
+			_ = enc.Encode(e)
+			n++
+		}
+	default:
+		panic("unknown spec " + spec)
+	}
+	return n
+}
+
+// ---------------------------------------------------------------------------------
+// Ons_Trace events (C20)
+
+type OnsTx struct {
+	K      string `json:"k"`
+	Name   string `json:"name"`
+	By     string `json:"by"`
+	Benef  string `json:"benef"`
+	Amt    int64  `json:"amt"`
+	Active bool   `json:"active"`
+	Cancel bool   `json:"cancel"`
+	URI    string `json:"uri"`
+	To     string `json:"to"`
+	Fee    int64  `json:"fee"`
+	Payer  string `json:"payer"`
+}
+
+type OnsState struct {
+	Dom map[string]DomRec `json:"dom"`
+	Bal map[string]int64  `json:"bal"`
+}
+
+type OnsEvent struct {
+	T     int               `json:"t"`
+	Ev    string            `json:"ev"`
+	H     int64             `json:"h"`
+	Base  int64             `json:"base"`
+	Pb    int64             `json:"pb"`
+	Par   map[string]string `json:"par"`
+	Txs   []OnsTx           `json:"txs"`
+	Other []string          `json:"other"`
+	Skip  []string          `json:"skip"` // names touched by an accepted request whose amount TLC cannot represent (an asking price of 2^63)
+	S     OnsState          `json:"s"`
+}
+
+// ParentName is the harness's own reading of the naming rule: a name with more than two
+// labels is a sub-name of the name made of its last two labels.
+func ParentName(n string) string {
+	ls := strings.Split(n, ".")
+	if len(ls) <= 2 {
+		return ""
+	}
+	return ls[len(ls)-2] + "." + ls[len(ls)-1]
+}
+
+func onsState(s *AbsState) OnsState {
+	bal := map[string]int64{}
+	for o, m := range s.Bal {
+		if v, ok := m["OLT"]; ok {
+			bal[o] = v
+		}
+	}
+	return OnsState{Dom: s.Domains, Bal: bal}
+}
+
+func OnsEvents(t int, sc *Scenario, tr *Transcript) []OnsEvent {
+	if tr.InitState == nil {
+		return nil
+	}
+	par := map[string]string{}
+	note := func(n string) {
+		if n != "" {
+			par[n] = ParentName(n)
+		}
+	}
+	for _, b := range sc.Blocks {
+		for _, tx := range b.Txs {
+			if strings.HasPrefix(tx.Req.Kind, "DOM_") {
+				note(tx.Req.S("name"))
+			}
+		}
+	}
+	for _, b := range tr.Blocks {
+		if b.State != nil {
+			for n := range b.State.Domains {
+				note(n)
+			}
+		}
+	}
+	evs := []OnsEvent{{T: t, Ev: "Init", Par: par, Txs: []OnsTx{}, Other: []string{}, Skip: []string{}, S: onsState(tr.InitState)}}
+	prev := tr.InitState
+	for _, b := range tr.Blocks {
+		if b.State == nil {
+			break
+		}
+		e := OnsEvent{T: t, Ev: "Block", H: b.H, Base: optInt(prev, "onsopt", "baseDomainPrice"), Pb: optInt(prev, "onsopt", "perBlockFees"), Par: par,
+			Txs: []OnsTx{}, Other: []string{}, Skip: []string{}, S: onsState(b.State)}
+		for _, tx := range b.Txs {
+			if !accepted(tx) {
+				continue
+			}
+			a, ok := argInt(tx.Req, "amt")
+			r := tx.Req
+			d := OnsTx{K: r.Kind, Name: r.S("name"), Amt: a, Fee: feeOf(tx), Payer: tx.FeePay, URI: r.S("uri")}
+			switch r.Kind {
+			case "DOM_CREATE":
+				d.By, d.Benef = r.S("owner"), r.S("benef")
+			case "DOM_UPDATE":
+				d.By, d.Benef, d.Active = r.S("owner"), r.S("benef"), r.I("active") != 0
+				ok = true
+			case "DOM_SELL":
+				d.By, d.Cancel = r.S("owner"), r.I("cancel") != 0
+			case "DOM_PURCHASE":
+				d.By, d.Benef = r.S("buyer"), r.S("benef")
+			case "DOM_SEND":
+				d.By = r.S("from")
+			case "DOM_RENEW", "DOM_DELETE_SUB":
+				d.By = r.S("owner")
+				ok = ok || r.Kind == "DOM_DELETE_SUB"
+			case "SEND":
+				d.By, d.To = r.S("from"), r.S("to")
+			default:
+				e.Other = append(e.Other, r.Kind)
+				continue
+			}
+			if !ok {
+				e.Other = append(e.Other, r.Kind+":unrepresentable-amount")
+				e.Skip = append(e.Skip, d.Name)
+				d.K = "OTHER"
+			}
+			e.Txs = append(e.Txs, d)
+		}
+		// payouts of a proposal finalised at the end of the block move balances without a transaction
+		for n, q := range b.State.Props {
+			if o, was := prev.Props[n]; was && o.Store != q.Store {
+				e.Other = append(e.Other, "governance:"+q.Store)
+			}
+		}
+		evs = append(evs, e)
+		prev = b.State
+	}
+	return evs
 }
